@@ -45,7 +45,8 @@ ASSUMPTIONS = ["compared: utterances, t1/t2/t4/apply/turn/health.jsonl bytes und
                "header+payload snapshot files written from those bodies, final state digests; t3*/gel.jsonl (raw timings) by "
                "record count only",
                "scheduler.budgets.time_ms_reflection is not set (a wall-clock budget is wall-clock dependent by design)",
-               "episodes always carry a valid ts (a missing ts falls back to the wall clock in the recency filter)",
+               "episodes carry a valid ts, except in cases whose tiers exclude exact_semantic (shape no_ts): the exact tier's recency filter "
+               "falls back to the wall clock for a missing ts on the unchanged tree",
                "T1-parallel is never combined with a T1 stage cache smaller than the entries touched (known finding "
                "t1-parallel-cache-eviction-order, owned by C09)",
                "before a second session boots, the snapshot files get mtimes in the order they were written (the loader picks "
@@ -350,6 +351,18 @@ def cases(draw):
         base = world.deep_merge(base, {"t2": {"k_retrieval": draw(st.sampled_from([10, 64])), "sim_threshold": draw(st.sampled_from([0.0, -1.0])),
                                               "owner_scope": "any", "tiers": ["exact_semantic", "cluster_semantic", "archive"]}})
         shape.append("gel_ties")
+    if "t2_parallel" not in feats and "gel_ties" not in shape and eps and draw(st.sampled_from([True, False, False])):
+        # episodes WITHOUT a timestamp: sound only while no tier filters by recency (the exact tier's filter falls back to the wall clock
+        # for a missing ts on the unchanged tree); the combined score must treat them as old whatever the wall clock says
+        base = world.deep_merge(base, {"t2": {"tiers": draw(st.sampled_from([["cluster_semantic"], ["archive"], ["cluster_semantic", "archive"],
+                                                                             ["archive", "cluster_semantic"]]))}})
+        if float(((base.get("t2") or {}).get("ranking") or {}).get("beta_recency", 0.2)) <= 0.0:
+            base["t2"]["ranking"] = {"alpha_sim": 0.5, "beta_recency": 0.4, "gamma_importance": 0.1}
+        if draw(st.booleans()):
+            base = world.deep_merge(base, {"t2": {"sim_threshold": draw(st.sampled_from([0.0, -1.0])), "owner_scope": "any"}})
+        for e in draw(st.permutations([e for e in eps if e.get("vec_full") is not None] or eps))[:draw(st.integers(1, 3))]:
+            e.pop("ts", None)
+        shape.append("no_ts")
     agents = {"A": ["g1", "g3"], "B": ["g2", "g1"], "Ç": ["g3"]}
     if draw(st.booleans()):
         agents = {a: list(draw(st.permutations(["g1", "g2", "g3"])))[:draw(st.integers(1, 3))] for a in ("A", "B", "Ç")}
@@ -735,8 +748,8 @@ def install_clock_perturbation(seed: int):
     time.monotonic_ns = lambda: int(fake_mono() * 1e9)
     time.process_time = fake_cpu
     time.thread_time = fake_cpu
-    # hours (crossing a date line) or years: back to the logical timeline of the cases (mid 2025), far ahead, before the epoch's first year
-    off = _dtmod.timedelta(hours=rng.choice([-11, 23, 3, -24 * 471, -24 * 471 + 7, 24 * 3650, -24 * 365 * 40]))
+    # hours (crossing a date line) or years: back to the logical timeline of the cases (mid 2025), far ahead, before the epoch (earlier than every logical clock of the cases)
+    off = _dtmod.timedelta(hours=rng.choice([-11, 23, -24 * 471 + 7, -24 * 571, -24 * 700, 24 * 3650, -24 * 365 * 60, -24 * 365 * 60]))
     real = _dtmod.datetime
 
     class ShiftedDT(real):
